@@ -1,4 +1,5 @@
 """C20 - tickets are never forged, duplicated, zeroed or merged incorrectly.  Specs: MichSem.tla (ticket instructions), VM.tla (ledger invariants)."""
+import json
 from .. import vmfam, vmreplay
 from ..tlaparse import to_json
 from ..vmfam import *   # noqa
@@ -75,6 +76,29 @@ def check_no_dup(ctx, st):
                               'stack': to_json(st['stack']), 'failv': []})
 
 
+def check_no_unpack(ctx):
+    """negative test: ticket types are not packable, so no bytes can be read as a ticket: UNPACK / PACK at a type holding a ticket is refused
+    (the reference typing has no such instruction instance; a ticket read from bytes would be forged)"""
+    from pytezos.michelson.instructions.base import MichelsonInstruction
+    from pytezos.michelson.stack import MichelsonStack
+    from pytezos.michelson.types import BytesType
+    from pytezos.context.impl import ExecutionContext
+    comb = vmreplay.make_item(P(ADDR, P(STR, NAT)), p(SELF, p(s('c'), i(5))))
+    data = comb.pack()
+    T = {'prim': 'ticket', 'args': [{'prim': 'string'}]}
+    for name, tj, payload in (('ticket', T, data), ('option', {'prim': 'option', 'args': [T]}, b'\x05\x05\x09' + data[1:]),
+                              ('pair', {'prim': 'pair', 'args': [{'prim': 'nat'}, T]}, b'\x05\x07\x07\x00\x01' + data[1:]), ('list', {'prim': 'list', 'args': [T]}, b'\x05\x02' + len(data[1:]).to_bytes(4, 'big') + data[1:])):
+        st = MichelsonStack([BytesType.from_value(payload)])
+        ctx.count(('unpack-ticket', name), nontrivial=True)
+        try:
+            MichelsonInstruction.match({'prim': 'UNPACK', 'args': [tj]}).execute(st, [], ExecutionContext())
+            res = st.items[0].to_micheline_value() if st.items else None
+        except Exception:   # noqa: refused
+            continue
+        if res != {'prim': 'None'}:
+            ctx.mismatch('C20:unpack-forges-ticket:%s' % name, 'UNPACK %s of bytes yields %s: a ticket that no TICKET instruction minted' % (json.dumps(tj), res), {'family': 'unpack', 'type': name})
+
+
 def replay_fn(ctx, prop, fname, st):
     cls = C01.replay_state(ctx, prop, fname, st)
     if cls is None and st['status'] == 'running':
@@ -95,6 +119,7 @@ def run(ctx):
         f['alphabet'] = [x for x in f['alphabet'] if x not in drop]
     C01.ASPECTS['C20'] = {'status', 'value', 'type', 'failwith-value'}
     C01.run_families(ctx, 'C20', 'ticket', {'ticket': f}, extra_inv='INVARIANT NoZeroTicket\nPROPERTY TicketConservation', replay_fn=replay_fn)
+    check_no_unpack(ctx)
     ctx.exhaustive = True
 
 
